@@ -286,33 +286,37 @@ func c08cli(c *engine.Ctx, k *c08canary) {
 		"(getenv " + m[4] + ")", "(setenv " + m[4] + " \"x\")", "(exit 3)", "(println (getenv " + m[4] + "))", "{ x = (sys " + m[3] + ") }", "(defmac mm [] ^(include " + m[0] + ")) (mm)",
 		"(eval (quote (include " + m[0] + ")))", "(bsave " + m[2] + " 1)", "(bload " + m[1] + ")", "(def al sys) (al " + m[3] + ")",
 	}
+	// the sandbox flag together with the tool's other flags, in both orders
+	flagSets := [][]string{{"-sandbox", "-quiet"}, {"-sandbox", "-demo", "-quiet"}, {"-demo", "-sandbox", "-quiet"}, {"-quiet", "-sandbox", "-exitonfail"}, {"-sandbox", "-no-liner", "-quiet"}, {"-trace=false", "-sandbox"}}
 	for i, f := range forms {
-		if !c.Mine() {
-			continue
+		for fi, flags := range flagSets {
+			if !c.Mine() {
+				continue
+			}
+			w := fmt.Sprintf("CLI|%d|%d|%s", i, fi, f)
+			c.Begin(w)
+			cmd := exec.Command(bin, append(append([]string{}, flags...), "-c", f)...)
+			cmd.Dir = k.dir
+			cmd.Env = append(os.Environ(), k.envName+"="+k.envVal)
+			cmd.Stdin = strings.NewReader("")
+			out, _ := cmd.CombinedOutput()
+			c.Count("cli_runs", 1)
+			c.Evals++
+			viol := func(clause, detail string) {
+				c.Violation(clause, "C08/cli-"+clause+"/"+strings.Fields(strings.Trim(f, "({ "))[0]+"/"+strings.Join(flags, ","), w, detail+"\n  zygo "+strings.Join(flags, " ")+" -c "+f)
+			}
+			if b := k.breach(); b != "" {
+				viol("outside-world-changed", b)
+				k.restore()
+			}
+			if x := c08leak(string(out)); x != "" {
+				viol("leak", "the output contains "+x+": "+clipS(string(out), 200))
+			}
+			if cmd.ProcessState != nil && cmd.ProcessState.ExitCode() == 3 {
+				viol("exit", "the script chose the process exit status")
+			}
+			c.Outcome("cli|" + f + "|" + strings.Join(flags, ","))
 		}
-		w := fmt.Sprintf("CLI|%d|%s", i, f)
-		c.Begin(w)
-		cmd := exec.Command(bin, "-sandbox", "-quiet", "-c", f)
-		cmd.Dir = k.dir
-		cmd.Env = append(os.Environ(), k.envName+"="+k.envVal)
-		cmd.Stdin = strings.NewReader("")
-		out, _ := cmd.CombinedOutput()
-		c.Count("cli_runs", 1)
-		c.Evals++
-		viol := func(clause, detail string) {
-			c.Violation(clause, "C08/cli-"+clause+"/"+strings.Fields(strings.Trim(f, "({ "))[0], w, detail+"\n  zygo -sandbox -c "+f)
-		}
-		if b := k.breach(); b != "" {
-			viol("outside-world-changed", b)
-			k.restore()
-		}
-		if x := c08leak(string(out)); x != "" {
-			viol("leak", "the output contains "+x+": "+clipS(string(out), 200))
-		}
-		if cmd.ProcessState != nil && cmd.ProcessState.ExitCode() == 3 {
-			viol("exit", "the script chose the process exit status")
-		}
-		c.Outcome("cli|" + f)
 	}
 }
 
@@ -571,7 +575,7 @@ func init() {
 		ID:    "C08",
 		Level: "exploration",
 		Rule: "configurations {NewZlispSandbox(), sandbox + StandardSetup()} x every name bound in that interpreter (read from the interpreter itself, so an added primitive is seen) + the 24 special forms of the compiler + the setup macros x every argument vector of length 0..2 (thorough 3) over an 9-item canary menu " +
-			"(path of a canary source file, of a secret file, of a new file, a shell command writing a file, the name of a canary environment variable, a canary package file, a shell command printing the secret file, 0, a symbol) x call routes {direct, alias, apply, macro, inside a function, eval of a quoted form, infix, eval at macro-expansion time and as expectError operand (both run in a duplicate of the interpreter)}; plus every outside-world primitive of the full interpreter reached for by a name computed at run time (str2sym / eval / apply / cons, 7 routes x 9 x 3 argument vectors); plus, after the script itself has bound each of those names (as value, function, macro), 13 reach attempts in later evaluations; plus every function the sandbox offers bound under each of those names and called by that name / quoted symbol / apply with 8 canary vectors; plus 25 forms through `zygo -sandbox -c`; " +
+			"(path of a canary source file, of a secret file, of a new file, a shell command writing a file, the name of a canary environment variable, a canary package file, a shell command printing the secret file, 0, a symbol) x call routes {direct, alias, apply, macro, inside a function, eval of a quoted form, infix, eval at macro-expansion time and as expectError operand (both run in a duplicate of the interpreter)}; plus every outside-world primitive of the full interpreter reached for by a name computed at run time (str2sym / eval / apply / cons, 7 routes x 9 x 3 argument vectors); plus, after the script itself has bound each of those names (as value, function, macro), 13 reach attempts in later evaluations; plus every function the sandbox offers bound under each of those names and called by that name / quoted symbol / apply with 8 canary vectors; plus 25 forms through `zygo -c` under 6 flag sets that contain -sandbox (with -demo in both orders, -exitonfail, -no-liner ...); " +
 			"after every call: canary directory byte-identical, no new file, canary variable unchanged, no secret in the value or on stdout, the canary source not evaluated, process alive",
 		Assumptions:   []string{"effects other than file / process / environment / exit (e.g. network) have no canary", "calls that do not return within 4 s are counted as blocked, not judged"},
 		QuickDeadline: 170 * time.Second,
